@@ -47,7 +47,109 @@ struct RawArc {
     drop_fn: Option<unsafe extern "C" fn(*const P)>,
 }
 
+// ---- allocations made by foreign code (CArc.tla: FromForeign) -------------------------------------------------------
+// A foreign reference-counting scheme with one HANDLE OBJECT per reference: its clone function returns a new handle object
+// over the shared count, its drop function must be given exactly the handle objects it handed out, each once.  The handle
+// object starts with a copy of the payload (`instance` points at a P, as the typed accessors expect).  Handle objects are
+// never given back to the allocator before the next behaviour starts, so that a second release is counted, not undefined.
+const H_LIVE: usize = 0xF0E1;
+const H_RELEASED: usize = 0xDEAD;
+#[repr(C)]
+struct FHandle {
+    p: std::mem::ManuallyDrop<P>,
+    shared: *mut FShared,
+    hid: usize,
+    state: AtomicUsize,
+}
+struct FShared {
+    count: AtomicUsize,
+    alloc: usize,
+}
+static FHANDLES: Mutex<Vec<usize>> = Mutex::new(Vec::new());
+static HREL: Mutex<Vec<usize>> = Mutex::new(Vec::new());
+static FSHARED: [AtomicUsize; MAXA] = [Z; MAXA];
+
+fn fhandle_of(p: *const P) -> Option<&'static FHandle> {
+    if FHANDLES.lock().unwrap().contains(&(p as usize)) {
+        Some(unsafe { &*(p as *const FHandle) })
+    } else {
+        None
+    }
+}
+fn new_fhandle(shared: *mut FShared, alloc: usize) -> *const P {
+    ledger::untracked(|| {
+        let mut hs = FHANDLES.lock().unwrap();
+        let hid = hs.len() + 1;
+        let h = Box::into_raw(Box::new(FHandle {
+            p: std::mem::ManuallyDrop::new(P { alloc, magic: 0xA11C }),
+            shared,
+            hid,
+            state: AtomicUsize::new(H_LIVE),
+        }));
+        hs.push(h as usize);
+        HREL.lock().unwrap().push(0);
+        h as *const P
+    })
+}
+fn reset_foreign() {
+    ledger::untracked(|| {
+        for h in FHANDLES.lock().unwrap().drain(..) {
+            drop(unsafe { Box::from_raw(h as *mut FHandle) });
+        }
+        HREL.lock().unwrap().clear();
+        for a in 0..MAXA {
+            let s = FSHARED[a].swap(0, SeqCst);
+            if s != 0 {
+                drop(unsafe { Box::from_raw(s as *mut FShared) });
+            }
+        }
+    })
+}
+unsafe extern "C" fn f_clone(p: *const P) -> *const P {
+    let h = match fhandle_of(p) {
+        Some(h) => h,
+        None => {
+            BAD.fetch_add(1, SeqCst);
+            return p;
+        }
+    };
+    if h.state.load(SeqCst) != H_LIVE {
+        BAD.fetch_add(1, SeqCst);
+    }
+    let sh = &*h.shared;
+    sh.count.fetch_add(1, SeqCst);
+    CLONE_CALLS[sh.alloc].fetch_add(1, SeqCst);
+    new_fhandle(h.shared, sh.alloc)
+}
+unsafe extern "C" fn f_drop(p: *const P) {
+    let h = match fhandle_of(p) {
+        Some(h) => h,
+        None => {
+            BAD.fetch_add(1, SeqCst);
+            return;
+        }
+    };
+    HREL.lock().unwrap()[h.hid - 1] += 1;
+    if h.state.swap(H_RELEASED, SeqCst) != H_LIVE {
+        // a handle object released twice: counted (the projection shows it), the shared count is left alone
+        BAD.fetch_add(1, SeqCst);
+        return;
+    }
+    (&mut (*(p as *mut FHandle)).p).magic = 0xDEAD;
+    let sh = &*h.shared;
+    DROP_CALLS[sh.alloc].fetch_add(1, SeqCst);
+    if sh.count.fetch_sub(1, SeqCst) == 1 {
+        VDROPS[sh.alloc].fetch_add(1, SeqCst);
+    }
+}
+fn hid_of(p: *const P) -> usize {
+    fhandle_of(p).map(|h| h.hid).unwrap_or(0)
+}
+
 fn alloc_of(p: *const P) -> usize {
+    if let Some(h) = fhandle_of(p) {
+        return unsafe { (*h.shared).alloc };
+    }
     // the address of a destroyed value may have been handed out again: prefer the live allocation
     for a in 1..MAXA {
         if ADDR[a].load(SeqCst) == p as usize && p as usize != 0 && VDROPS[a].load(SeqCst) == 0 {
@@ -119,6 +221,23 @@ impl H {
     /// (kind, alloc) — the alloc is found by dereferencing typed handles and by the raw instance
     /// pointer for opaque ones; a typed handle whose payload disagrees with its address is flagged.
     fn view(&self) -> (&'static str, usize) {
+        let (k, a, _) = self.view_h();
+        (k, a)
+    }
+    /// the same with the foreign handle object the handle holds (0: none)
+    fn view_h(&self) -> (&'static str, usize, usize) {
+        let (k, a) = self.view0();
+        let p: *const P = match self {
+            H::CArc(c) => raw_instance(c),
+            H::Some(c) => raw_instance(c),
+            H::OCArc(c) => raw_instance(c),
+            H::OSome(c) => raw_instance(c),
+            H::Opt(o) => o.as_ref().map(|c| raw_instance(c)).unwrap_or(std::ptr::null()),
+            H::Arc(_) => std::ptr::null(),
+        };
+        (k, a, if p.is_null() { 0 } else { hid_of(p) })
+    }
+    fn view0(&self) -> (&'static str, usize) {
         fn chk(p: &P) -> usize {
             if p.magic != 0xA11C || alloc_of(p as *const P) != p.alloc {
                 BAD.fetch_add(1, SeqCst);
@@ -181,6 +300,22 @@ fn exec(sh: &Shared, e: &Value) -> Result<(), String> {
                     H::Some(c)
                 }
             });
+            put(s, h);
+        }
+        "FromForeign" => {
+            // the handle as foreign code fills it in: three words, the published layout
+            let a = e["a"].as_u64().unwrap() as usize;
+            let shared = ledger::untracked(|| Box::into_raw(Box::new(FShared { count: AtomicUsize::new(1), alloc: a })));
+            FSHARED[a].store(shared as usize, SeqCst);
+            ADDR[a].store(shared as usize, SeqCst);
+            let raw = RawArc { instance: new_fhandle(shared, a), clone_fn: Some(f_clone), drop_fn: Some(f_drop) };
+            let h = unsafe {
+                if e["k"] == "CArc" {
+                    H::CArc(std::mem::transmute::<RawArc, CArc<P>>(raw))
+                } else {
+                    H::Some(std::mem::transmute::<RawArc, CArcSome<P>>(raw))
+                }
+            };
             put(s, h);
         }
         "FromArc" => {
@@ -315,6 +450,7 @@ impl World {
             DROP_CALLS[a].store(0, SeqCst);
             ADDR[a].store(0, SeqCst);
         }
+        reset_foreign();
         let sh = Arc::new(Shared {
             slots: Mutex::new((0..nslots).map(|_| None).collect()),
             keep: Mutex::new((0..=nalloc).map(|_| None).collect()),
@@ -366,21 +502,29 @@ impl World {
         let sl: Vec<Value> = slots
             .iter()
             .map(|h| match h {
-                None => json!(["free", 0]),
+                None => json!(["free", 0, 0]),
                 Some(h) => {
-                    let (k, a) = h.view();
-                    json!([k, a])
+                    let (k, a, hid) = h.view_h();
+                    json!([k, a, hid])
                 }
             })
             .collect();
         let strong: Vec<usize> = (1..=self.nalloc)
-            .map(|a| keep[a].as_ref().map(Arc::strong_count).unwrap_or(0))
+            .map(|a| {
+                let f = FSHARED[a].load(SeqCst);
+                if f != 0 {
+                    unsafe { (*(f as *const FShared)).count.load(SeqCst) }
+                } else {
+                    keep[a].as_ref().map(Arc::strong_count).unwrap_or(0)
+                }
+            })
             .collect();
         let vd: Vec<usize> = (1..=self.nalloc).map(|a| VDROPS[a].load(SeqCst)).collect();
         let calls: Vec<Value> = (1..=self.nalloc)
             .map(|a| json!([CLONE_CALLS[a].load(SeqCst), DROP_CALLS[a].load(SeqCst)]))
             .collect();
-        json!({"slots": sl, "strong": strong, "vdrops": vd, "calls": calls})
+        let hrel = HREL.lock().unwrap().clone();
+        json!({"slots": sl, "strong": strong, "vdrops": vd, "calls": calls, "hrel": hrel})
     }
 
     pub fn slot_views(&self) -> Vec<Option<(&'static str, usize)>> {
@@ -410,9 +554,12 @@ impl World {
         for a in 1..=self.nalloc {
             let made = ADDR[a].load(SeqCst) != 0;
             let d = VDROPS[a].load(SeqCst);
-            if HAS_DROP && made && d != 1 {
+            if (HAS_DROP || FSHARED[a].load(SeqCst) != 0) && made && d != 1 {
                 return Some(format!("allocation {} value dropped {} times at quiescence", a, d));
             }
+        }
+        if let Some(h) = HREL.lock().unwrap().iter().position(|&r| r != 1) {
+            return Some(format!("foreign handle object {} was released {} times at quiescence", h + 1, HREL.lock().unwrap()[h]));
         }
         let s = ledger::snap();
         if s.live != base.live {
@@ -502,6 +649,7 @@ fn trace(out: &str, seed: u64, events: usize, nslots: usize, nalloc: usize, nthr
                 if let Some(&a) = unmade.first() {
                     cand.push(json!({"op":"FromValue","t":t,"s":d+1,"a":a,"k": if rng.chance(1,2) {"CArc"} else {"Some"}}));
                     cand.push(json!({"op":"EnvNewArc","a":a}));
+                    cand.push(json!({"op":"FromForeign","t":t,"s":d+1,"a":a,"k": if rng.chance(1,2) {"CArc"} else {"Some"}}));
                 }
                 if !keptv.is_empty() {
                     let a = *rng.pick(&keptv);
@@ -544,7 +692,9 @@ fn trace(out: &str, seed: u64, events: usize, nslots: usize, nalloc: usize, nthr
                         "Some" => {
                             c.push(json!({"op":"Convert","t":t,"s":s+1,"to":"CArc"}));
                             c.push(json!({"op":"Convert","t":t,"s":s+1,"to":"OSome"}));
-                            c.push(json!({"op":"IntoArc","t":t,"s":s+1}));
+                            if FSHARED[a].load(SeqCst) == 0 {
+                                c.push(json!({"op":"IntoArc","t":t,"s":s+1}));
+                            }
                         }
                         "Opt" => {
                             c.push(json!({"op":"Convert","t":t,"s":s+1,"to":"CArc"}));
@@ -562,7 +712,7 @@ fn trace(out: &str, seed: u64, events: usize, nslots: usize, nalloc: usize, nthr
             }
             let e = rng.pick(&cand).clone();
             if let Some(a) = e["a"].as_u64() {
-                if e["op"] == "FromValue" || e["op"] == "EnvNewArc" {
+                if e["op"] == "FromValue" || e["op"] == "EnvNewArc" || e["op"] == "FromForeign" {
                     made[a as usize] = true;
                 }
             }
@@ -570,7 +720,7 @@ fn trace(out: &str, seed: u64, events: usize, nslots: usize, nalloc: usize, nthr
                 own[e["s"].as_u64().unwrap() as usize - 1] = e["u"].as_u64().unwrap() as usize;
             }
             for key in ["s", "d"].iter() {
-                if matches!(e["op"].as_str().unwrap(), "FromValue" | "FromArc" | "MakeEmpty") && *key == "s"
+                if matches!(e["op"].as_str().unwrap(), "FromValue" | "FromArc" | "FromForeign" | "MakeEmpty") && *key == "s"
                     || matches!(e["op"].as_str().unwrap(), "Clone" | "Take") && *key == "d"
                 {
                     own[e[*key].as_u64().unwrap() as usize - 1] = e["t"].as_u64().unwrap() as usize;
